@@ -33,14 +33,25 @@ class OutputOptimize(Harness):
     loop_bound = 200
     max_paths = 1000000
 
+    # larger shapes that the rewrite rules are written for, added to every tier:
+    #   (X (Y Z))  e.g. (f (r N)) and, quoted, (q (f N));  (a (q . X) 1);  (a (q 1 . X) E);  (i (q . C) A B)
+    FOCUS = [['A', [['A', ['A', 'N']], 'N']], ['A', [['A', 'A'], ['A', 'N']]],
+             ['A', [['A', ['A', 'A']], ['A', 'N']]], ['A', [['A', 'A'], ['A', ['A', 'N']]]],
+             ['A', [['A', ['A', 'N']], [['A', ['A', 'N']], 'N']]]]
+
     def cases(self, tier):
         sp = self.spec[tier]
+        seen = set()
         for k in sp['leaves']:
             for sh in shapes(k):
                 for mask in range(1 << k):
                     lsh = label_leaves(sh, mask, itertools.count())
+                    seen.add(repr(lsh))
                     for env in sp['envs']:
                         yield dict(prog=lsh, env=env)
+        for lsh in self.FOCUS:
+            if repr(lsh) not in seen:
+                yield dict(prog=lsh, env=sp['envs'][0])
 
     def sym_inputs(self, case):
         return dict(atoms=sym_bytes('p', count_a(case['prog'])), env=[sym_bytes('e%d' % i, 1) for i in range(count_leaves(case['env']))])
